@@ -376,7 +376,7 @@ def parse_sidecar(path):
                 cur = None
             elif w[0] == 'fragment':
                 # //@ fragment <path> fn <name> [in `impl`] block-after|head-until `anchor` as <newname>
-                m = re.match(r'fragment\s+(\S+)\s+fn\s+(\S+)(?:\s+in\s+`([^`]*)`)?\s+(block-after|head-until|stmt-at)\s+' + _BT + r'(?:\s+until\s+' + _BT + r')?\s+as\s+(\S+)\s*$', d)
+                m = re.match(r'fragment\s+(\S+)\s+fn\s+(\S+)(?:\s+in\s+`([^`]*)`)?\s+(block-after|head-until|stmt-at|expr-after)\s+' + _BT + r'(?:\s+until\s+' + _BT + r')?\s+as\s+(\S+)\s*$', d)
                 if not m:
                     raise SpecError('%s:%d: bad fragment' % (path, ln))
                 item = Item(m.group(1), 'fn', m.group(2), m.group(3), m.group(7), ln)
@@ -641,6 +641,26 @@ def build(repo, sidecar_path, extra_spec=None, reach=False):
                         raise ExtractionLost('%s: statement at `%s` has no end' % (where, anchor))
                 inner = '\n' + raw[a0:se] + '\n'
                 f0 = a0
+            elif mode == 'expr-after':
+                # the body of an EXPRESSION closure (`|d| *d = duration`): from the end of the anchor
+                # (the closure's parameter list) to the `)` closing the call it is an argument of, or
+                # to a `,` at bracket depth 0; it becomes one statement of the synthetic function
+                depth_, se = 0, None
+                for kind_, ta_, tb_ in tokens(raw, a1):
+                    if kind_ == 'open':
+                        depth_ += 1
+                    elif kind_ == 'close':
+                        if depth_ == 0:
+                            se = ta_
+                            break
+                        depth_ -= 1
+                    elif kind_ == 'punct' and raw[ta_] in ',;' and depth_ == 0:
+                        se = ta_
+                        break
+                if se is None:
+                    raise ExtractionLost('%s: expression after `%s` has no end' % (where, anchor))
+                inner = '\n' + raw[a1:se].strip() + ';\n'
+                f0 = a1
             else:
                 inner = raw[fbo + 1:a0]
                 f0 = fbo
@@ -649,7 +669,7 @@ def build(repo, sidecar_path, extra_spec=None, reach=False):
             header = '\n'.join(l for l, _ in item.header).rstrip()
             tail = '\n'.join(l for l, _ in item.tail)
             g.rewrites.append({'tag': 'Rfrag', 'where': where,
-                               'before': 'fn %s: everything outside the %s `%s`%s' % (item.name, {'block-after': 'block opened by', 'stmt-at': 'statement starting at'}.get(mode, 'statements before'), anchor, (' and, inside it, everything from `%s` on' % until) if until else ''),
+                               'before': 'fn %s: everything outside the %s `%s`%s' % (item.name, {'block-after': 'block opened by', 'stmt-at': 'statement starting at', 'expr-after': 'closure expression after'}.get(mode, 'statements before'), anchor, (' and, inside it, everything from `%s` on' % until) if until else ''),
                                'after': 'dropped; the fragment is wrapped in the synthetic signature `%s`%s' % (' '.join(header.split()), (' and followed by `%s`' % tail.strip()) if tail.strip() else '')})
             prefix = '\n'.join(l for l, _ in item.prefix)
             if prefix.strip():
